@@ -626,6 +626,31 @@ static void run_op(char** a, int na) {
       finish(&req); t(" cb=%d m=%ld,%ld,%ld,%ld", ncb, m1, m2, m3, m4);
       sem_destroy(&gate_sem);
     } else t("res=-");
+  } else if (!strcmp(op, "statx95")) {
+    /* fault injection on the ring route: the completion of the statx SQE is rewritten to
+     * -EOPNOTSUPP in the completion ring before libuv looks at it (what a file system
+     * without statx support answers), so that uv__poll_io_uring re-posts to the pool */
+    if (route == R_RING && ring_iou()->ringfd >= 0) {
+      struct uv__iou* iou = ring_iou(); struct cqe_abi { uint64_t user_data; int32_t res; uint32_t flags; };
+      struct cqe_abi* cq = iou->cqe; int patched = 0, tries;
+      BEGIN(); rc = uv_fs_stat(L, &req, ARG(1), CB);
+      m1 = live - m0; via = 'p';
+      if (rc == 0 && iou->in_flight != inflight0) {
+        via = 'r'; dump_sqe(&req);
+        for (tries = 0; tries < 20000 && !patched; tries++) {
+          uint32_t head = *iou->cqhead, tail = __atomic_load_n(iou->cqtail, __ATOMIC_ACQUIRE), i;
+          for (i = head; i != tail; i++)
+            if (cq[i & iou->cqmask].user_data == (uint64_t) (uintptr_t) &req) { cq[i & iou->cqmask].res = -EOPNOTSUPP; patched = 1; }
+          if (!patched) usleep(100);
+        }
+      }
+      if (rc == 0) uv_run(L, UV_RUN_DEFAULT);
+      res = rc == 0 ? (long) req.result : rc;
+      m2 = live - m0;
+      t("res=%ld", res); if (!patched) t(" NOT-PATCHED");
+      if (res == 0) t_stat_uv(&req);
+      END(0);
+    } else t("res=-");
   } else {
     t("res=UNKNOWN-OP(%s)", op);
   }
